@@ -38,7 +38,12 @@ func (gowrapSuite) Gen(r *rand.Rand, i int) Case {
 		if r.Intn(8) == 0 {
 			nilc, lost, via, fn = 1, 0, "cancel", "run" // a nil circuit runs the function directly: no fallback
 		}
-		c.Ops = append(c.Ops, fmt.Sprintf("go fn=%s out=%s finish=%d ctx=%s via=%s lost=%d nilc=%d", fn, out, finish, ctx, via, lost, nilc))
+		cdl := 0
+		if via == "timeout" && r.Intn(2) == 0 {
+			cdl = 1 // the caller's own context carries a LATER deadline: the execution timeout must still end the call
+			c.Tags = append(c.Tags, "caller-deadline")
+		}
+		c.Ops = append(c.Ops, fmt.Sprintf("go fn=%s out=%s finish=%d ctx=%s via=%s lost=%d nilc=%d cdl=%d", fn, out, finish, ctx, via, lost, nilc, cdl))
 		c.Tags = append(c.Tags, "ctx-"+ctx, "fn-"+fn)
 		if strings.HasPrefix(out, "panic") {
 			c.Tags = append(c.Tags, "panic")
@@ -110,6 +115,11 @@ func runGoScenario(m map[string]string) string {
 	}
 	ctx, cancel := context.WithCancel(context.Background())
 	defer cancel()
+	if m["cdl"] == "1" {
+		var cancel2 context.CancelFunc
+		ctx, cancel2 = context.WithTimeout(ctx, 3*time.Second)
+		defer cancel2()
+	}
 	if ctxMode == "pre" {
 		cancel()
 	}
@@ -178,7 +188,7 @@ func runGoScenario(m map[string]string) string {
 	prompt := true
 	select {
 	case r = <-resCh:
-	case <-time.After(2 * time.Second):
+	case <-time.After(1200 * time.Millisecond):
 		prompt = false
 	}
 	if ctxMode == "during" && finish && prompt {
@@ -236,6 +246,18 @@ func runGoScenario(m map[string]string) string {
 		close(release)
 		<-finished
 		time.Sleep(time.Millisecond)
+	} else if !prompt && ctxMode == "during" {
+		close(release) // Go never came back in time: release the function now (not observed)
+	}
+	if !prompt {
+		// wait for the stuck call and its helpers to wind down, so that they are not counted against the next scenario
+		select {
+		case <-resCh:
+		case <-time.After(5 * time.Second):
+		}
+		for d := time.Now().Add(time.Second); time.Now().Before(d) && helperGoroutines() > 0; {
+			time.Sleep(5 * time.Millisecond)
+		}
 	}
 	return fmt.Sprintf("caller=%s lost=%s prompt=%s leak=%s", caller, lostStr, b01(prompt), leak)
 }
